@@ -70,6 +70,7 @@ type Sim struct {
 	conns  []*ConnLog
 	nextIP int
 	open   int
+	maxOpen int // most connections open at the same time since the last Reset
 }
 
 var (
@@ -213,6 +214,14 @@ func (s *Sim) Reset() {
 		h.mu.Unlock()
 	}
 	s.conns = nil
+	s.maxOpen = 0
+}
+
+// MaxOpen is the largest number of connections that were open at the same time since the last Reset.
+func (s *Sim) MaxOpen() int {
+	s.mu.Lock()
+	defer s.mu.Unlock()
+	return s.maxOpen
 }
 
 // DropHost closes a host's listener and forgets it (a later Host(name) gets a new port).
@@ -309,6 +318,9 @@ func (h *Host) handle(raw net.Conn) {
 	log.Seq = len(s.conns) + 1
 	s.conns = append(s.conns, log)
 	s.open++
+	if s.open > s.maxOpen {
+		s.maxOpen = s.open
+	}
 	s.mu.Unlock()
 	defer func() {
 		raw.Close()
